@@ -95,6 +95,21 @@ pub fn parse_payloads(payloads: &[Vec<u8>]) -> Result<Vec<Msg>, String> {
     Ok(out)
 }
 
+/// the `|T` field of an aggregated counter/gauge is the flush time in whole SECONDS since the Unix epoch; the margin
+/// (10 minutes either way) only has to separate seconds from milliseconds / zero / garbage, not to time anything
+fn check_ts(out: &mut Out, m: &Msg, wher: &str) {
+    if let Some(t) = &m.ts {
+        let now = std::time::SystemTime::now().duration_since(std::time::UNIX_EPOCH).map(|d| d.as_secs()).unwrap_or(0);
+        match t.parse::<u64>() {
+            Ok(v) if v + 600 >= now && v <= now + 600 => {}
+            _ => out.oracle_fail(
+                "counter/gauge timestamp is not the flush time in seconds since the Unix epoch",
+                &format!("{}: now {} msg {:?}", wher, now, m),
+            ),
+        }
+    }
+}
+
 // ------------------------------------------------------------------------------------------------ stream A
 
 struct OutcomeA {
@@ -352,15 +367,39 @@ fn stream_b(r: &mut Rng, out: &mut Out) {
                 }
                 1 => {
                     let last = abs_vals[i].last().copied().unwrap_or(0);
-                    let v = last + *r.pick(&[0u64, 1, 9, 1000]);
+                    // non-decreasing over the whole u64 range (steps beyond 2^32 and 2^63; the first value may be huge)
+                    let v = if abs_vals[i].is_empty() {
+                        *r.pick(&[0u64, 7, 1 << 33, (1 << 63) + 5])
+                    } else {
+                        last.saturating_add(*r.pick(&[0u64, 1, 9, 1000, 1 << 33, 1 << 62, 1 << 63]))
+                    };
                     rec.register_counter(&key, &META).absolute(v);
                     abs_vals[i].push(v);
                 }
                 2 => {
-                    let v = *r.pick(&[0.0f64, 1.5, -3.25, 1e9, f64::MIN_POSITIVE]);
-                    rec.register_gauge(&key, &META).set(v);
-                    gauge_last[i] = Some(v);
-                    gauge_calls[i].push(format!("s{}", v.to_bits()));
+                    let v = *r.pick(&[0.0f64, 1.5, -3.25, 1e9, f64::MIN_POSITIVE, 0.1, 1e300]);
+                    let g = rec.register_gauge(&key, &META);
+                    // the handle starts at 0.0; increment / decrement are read-modify-write on the current value
+                    let cur = gauge_last[i].unwrap_or(0.0);
+                    match r.below(3) {
+                        0 => {
+                            g.set(v);
+                            gauge_last[i] = Some(v);
+                            gauge_calls[i].push(format!("s{}", v.to_bits()));
+                        }
+                        1 => {
+                            g.increment(v);
+                            gauge_last[i] = Some(cur + v);
+                            gauge_calls[i].push(format!("i{}", v.to_bits()));
+                            out.count("b.gauge.increment");
+                        }
+                        _ => {
+                            g.decrement(v);
+                            gauge_last[i] = Some(cur - v);
+                            gauge_calls[i].push(format!("d{}", v.to_bits()));
+                            out.count("b.gauge.decrement");
+                        }
+                    }
                 }
                 _ => {
                     let v = r.below(1000) as f64 / 8.0;
@@ -388,8 +427,14 @@ fn stream_b(r: &mut Rng, out: &mut Out) {
                     &format!("aggressive={} msg={:?}", aggressive, m),
                 );
             }
+            check_ts(out, m, "stream B");
             if !glabels.is_empty() && !m.tags.iter().any(|t| t == "env:t") {
                 out.oracle_fail("global label missing from a flushed message", &format!("{:?}", m));
+            }
+        }
+        for m in &msgs {
+            if !names.iter().any(|n| full(n) == m.name) {
+                out.oracle_fail("a flush sent a message for a metric that was never registered", &format!("{:?}", m));
             }
         }
         for i in 0..nkeys {
@@ -462,7 +507,7 @@ fn stream_b(r: &mut Rng, out: &mut Out) {
     for i in 0..nkeys {
         if kinds[i] == 2 && !gauge_calls[i].is_empty() {
             out.op(
-                &format!("agg gauge {}", list(gauge_calls[i].iter().cloned())),
+                &format!("agg gaugeops {}", list(gauge_calls[i].iter().cloned())),
                 &list(gauge_sent[i].iter().map(|b| b.to_string())),
             );
         }
@@ -534,6 +579,10 @@ fn stream_c(r: &mut Rng, out: &mut Out) {
                         if matches!(m.ty.as_str(), "c" | "g") && m.ts.is_some() != aggressive {
                             out.oracle_fail("end to end: timestamp does not match the documented aggregation mode", &format!("{:?}", m));
                         }
+                        check_ts(out, &m, "stream C");
+                        if m.name != "e2e" && m.name != "e2e_g" {
+                            out.oracle_fail("end to end: the socket received a message for a metric that was never registered", &format!("{:?}", m));
+                        }
                         if m.name == "e2e" {
                             let d: u64 = m.values[0].parse().unwrap_or(u64::MAX);
                             sum = sum.wrapping_add(d);
@@ -572,6 +621,288 @@ fn stream_c(r: &mut Rng, out: &mut Out) {
     }
     out.count("c.session");
     drop(rec);
+}
+
+// ------------------------------------------------------------------------------------------------ stream D
+//
+// ONE histogram key (sampling off) of a real `State`: recorder threads (`Histogram::record` = `AtomicHistogram::record`
+// = `AtomicBucket::push`) race ONE flusher thread doing `State::flush` (per flush: `is_empty`, then `AtomicHistogram::
+// flush` = `clear_with`) under the deterministic scheduler, one shared-memory operation of bucket.rs per grant.  The
+// executed schedule is replayed on the Lean machine (`agg hist …` = Model/StatsdHist over Model/Bucket).
+// Oracle (independent of the model): every recorded value (all distinct) is in exactly one flush, the two flushes made
+// after the threads finished included.  The only tolerated exception is the known straggler window of the bucket
+// (K-C05-K1: a clear's detach step lies between a pusher's tail load and its slot claim): such a value may be in no
+// flush, never in two.
+
+/// `true`: a value lost in the K-C05-K1 window is reported as an oracle failure tagged
+/// `[K1:straggler-push-on-detached-block]` (needs the known_findings.json entry proposed in REPORT.md);
+/// `false`: it is only counted (`d.k1.straggler-lost`) — the Lean machine reproduces the loss either way.
+const K1_AS_FINDING: bool = true;
+
+struct OutcomeD {
+    flushes: Vec<Option<Vec<u64>>>, // per flush: the values sent for the key in order, None when the key was skipped
+    run: sched::RunResult,
+    bad: Option<String>,
+    final_flushes: Vec<Option<Vec<u64>>>,
+}
+
+fn hist_values(msgs: &[Msg], want_ty: &str, bad: &mut Option<String>) -> Option<Vec<u64>> {
+    let mine: Vec<&Msg> = msgs.iter().filter(|m| m.name == "h").collect();
+    if mine.len() != msgs.len() {
+        *bad = Some(format!("a flush of a state with one histogram sent a message for another name: {:?}", msgs));
+    }
+    if mine.is_empty() {
+        return None;
+    }
+    let mut vs = vec![];
+    for m in mine {
+        if m.ty != want_ty || m.rate.is_some() || m.ts.is_some() {
+            *bad = Some(format!("histogram message with wrong type, a sample rate or a timestamp (sampling is off): {:?}", m));
+        }
+        for v in &m.values {
+            match v.parse::<f64>() {
+                Ok(x) if x >= 0.0 && x.fract() == 0.0 && x < 1e15 => vs.push(x as u64),
+                _ => *bad = Some(format!("histogram value that was never recorded: {:?}", m)),
+            }
+        }
+    }
+    Some(vs)
+}
+
+fn execute_d(recs: &[Vec<u64>], nflush: usize, schedule: &[usize], as_dist: bool, limit: usize) -> OutcomeD {
+    let driver = StateDriver::new(false, false, 16, as_dist, vec![], None);
+    let rec = driver.recorder();
+    let key = Key::from_name("h");
+    let hist = rec.register_histogram(&key, &META);
+    let driver = Arc::new(Mutex::new(driver));
+    let flushes: Arc<Mutex<Vec<Option<Vec<u64>>>>> = Arc::new(Mutex::new(vec![]));
+    let bad: Arc<Mutex<Option<String>>> = Arc::new(Mutex::new(None));
+    let want_ty = if as_dist { "d" } else { "h" };
+    let mut bodies: Vec<Box<dyn FnOnce() + Send + 'static>> = vec![];
+    for vals in recs {
+        let vals = vals.clone();
+        let hist = hist.clone();
+        bodies.push(Box::new(move || {
+            for v in vals {
+                hist.record(v as f64);
+            }
+        }));
+    }
+    {
+        let driver = driver.clone();
+        let flushes = flushes.clone();
+        let bad = bad.clone();
+        bodies.push(Box::new(move || {
+            let mut writer = Writer::new(limit, false);
+            for _ in 0..nflush {
+                driver.lock().unwrap().flush(&mut writer);
+                let payloads = writer.drain();
+                match parse_payloads(&payloads) {
+                    Ok(msgs) => {
+                        let mut b = None;
+                        let r = hist_values(&msgs, want_ty, &mut b);
+                        if b.is_some() {
+                            *bad.lock().unwrap() = b;
+                        }
+                        flushes.lock().unwrap().push(r);
+                    }
+                    Err(e) => {
+                        // an empty drain is not an error: nothing was written
+                        if payloads.iter().all(|p| p.is_empty()) {
+                            flushes.lock().unwrap().push(None);
+                        } else {
+                            *bad.lock().unwrap() = Some(e);
+                        }
+                    }
+                }
+            }
+        }));
+    }
+    let run = sched::run(bodies, schedule);
+    let f = flushes.lock().unwrap().clone();
+    let mut final_flushes = vec![];
+    if !run.deadlock && !run.timed_out && run.panicked.is_empty() {
+        let mut writer = Writer::new(limit, false);
+        for _ in 0..2 {
+            driver.lock().unwrap().flush(&mut writer);
+            let payloads = writer.drain();
+            if let Ok(msgs) = parse_payloads(&payloads) {
+                let mut b = None;
+                final_flushes.push(hist_values(&msgs, want_ty, &mut b));
+                if b.is_some() {
+                    *bad.lock().unwrap() = b;
+                }
+            } else if payloads.iter().all(|p| p.is_empty()) {
+                final_flushes.push(None);
+            }
+        }
+    }
+    let b = bad.lock().unwrap().clone();
+    OutcomeD { flushes: f, run, bad: b, final_flushes }
+}
+
+fn vals_tok(vs: &[u64]) -> String {
+    if vs.is_empty() {
+        "[]".into()
+    } else {
+        format!("[{}]", vs.iter().map(|v| v.to_string()).collect::<Vec<_>>().join("/"))
+    }
+}
+
+fn answer_d(o: &OutcomeD) -> String {
+    let labels: Vec<&str> = o.run.trace.iter().map(|(_, id)| *id).collect();
+    let outs = list(o.flushes.iter().map(|f| match f {
+        Some(vs) => vals_tok(vs),
+        None => "skip".into(),
+    }));
+    let visible = match o.final_flushes.first() {
+        Some(Some(vs)) => vals_tok(vs),
+        _ => "[]".into(),
+    };
+    format!("{} | {} | visible={} | consistent=true", labels.join("."), outs, visible)
+}
+
+/// values whose push has the K-C05-K1 trace signature: a detach (`bkt.clear.load_tail` grant of the flusher = tail
+/// load + CAS) lies between the push's last tail load and its slot claim
+fn k1_values(recs: &[Vec<u64>], trace: &[(usize, &'static str)]) -> Vec<u64> {
+    let f = recs.len();
+    let detaches: Vec<usize> = trace.iter().enumerate().filter(|(_, (t, id))| *t == f && *id == "bkt.clear.load_tail").map(|x| x.0).collect();
+    let mut out = vec![];
+    for t in 0..recs.len() {
+        let mut k = 0usize;
+        let mut load: Option<usize> = None;
+        for (i, (tt, id)) in trace.iter().enumerate() {
+            if *tt != t {
+                continue;
+            }
+            match *id {
+                "bkt.push.load_tail" => load = Some(i),
+                "blk.push.claim" => {
+                    if let Some(l) = load {
+                        if detaches.iter().any(|g| l < *g && *g < i) {
+                            if let Some(v) = recs[t].get(k) {
+                                if !out.contains(v) {
+                                    out.push(*v);
+                                }
+                            }
+                        }
+                    }
+                }
+                "blk.push.publish" => k += 1,
+                _ => {}
+            }
+        }
+    }
+    out
+}
+
+fn oracle_d(out: &mut Out, recs: &[Vec<u64>], o: &OutcomeD) {
+    if o.run.deadlock || o.run.timed_out || !o.run.panicked.is_empty() {
+        out.oracle_fail("histogram aggregation: deadlock, timeout or panic", &format!("{:?}", o.run.trace));
+        return;
+    }
+    if let Some(b) = &o.bad {
+        out.oracle_fail("histogram flush produced malformed or foreign messages", b);
+    }
+    let detail = format!(
+        "recorders {:?} flushes during the run {:?} afterwards {:?} trace {:?}",
+        recs, o.flushes, o.final_flushes, o.run.trace
+    );
+    if o.final_flushes.len() != 2 {
+        out.oracle_fail("histogram: the flushes after the run could not be read back", &detail);
+        return;
+    }
+    if o.final_flushes[1].is_some() {
+        out.oracle_fail("histogram values were sent by a flush although nothing was recorded since the previous flush", &detail);
+    }
+    let k1 = k1_values(recs, &o.run.trace);
+    let all_sent: Vec<u64> = o.flushes.iter().chain(o.final_flushes.iter()).flatten().flatten().copied().collect();
+    for v in &all_sent {
+        if !recs.iter().flatten().any(|x| x == v) {
+            out.oracle_fail("a flush sent a histogram value that was never recorded", &format!("value {} :: {}", v, detail));
+        }
+    }
+    for v in recs.iter().flatten() {
+        let n = all_sent.iter().filter(|x| *x == v).count();
+        if n > 1 {
+            out.oracle_fail("a recorded histogram value (sampling off) was sent by more than one flush", &format!("value {} sent {} times :: {}", v, n, detail));
+        } else if n == 0 {
+            if k1.contains(v) {
+                out.count("d.k1.straggler-lost");
+                if K1_AS_FINDING {
+                    out.oracle_fail(
+                        "a recorded histogram value (sampling off) was sent by no flush [K1:straggler-push-on-detached-block]",
+                        &format!("value {} :: {}", v, detail),
+                    );
+                }
+            } else {
+                out.oracle_fail(
+                    "a recorded histogram value (sampling off) was sent by no flush (and the record did not straddle the flush's detach step)",
+                    &format!("value {} :: {}", v, detail),
+                );
+            }
+        }
+    }
+}
+
+fn one_d(out: &mut Out, recs: &[Vec<u64>], nflush: usize, sch: &[usize], as_dist: bool, limit: usize) {
+    let o = execute_d(recs, nflush, sch, as_dist, limit);
+    let taken: Vec<usize> = o.run.trace.iter().map(|(t, _)| *t).collect();
+    let recs_tok = list(recs.iter().map(|r| if r.is_empty() { "-".to_string() } else { r.iter().map(|v| v.to_string()).collect::<Vec<_>>().join("+") }));
+    out.op(&format!("agg hist 64 {} {} {}", recs_tok, nflush, sched::sched_tok(&taken)), &answer_d(&o));
+    // non-trivial: a recorder step was granted while the flusher was inside a flush (between its first is_empty step
+    // and the end of its clear), or a flusher step while a record was in flight
+    let f = recs.len();
+    let tr = &o.run.trace;
+    let mut in_push = vec![false; recs.len()];
+    let mut hit = false;
+    for (t, id) in tr {
+        if *t < f {
+            match *id {
+                "bkt.push.load_tail" => in_push[*t] = true,
+                "blk.push.publish" => in_push[*t] = false,
+                _ => {}
+            }
+        } else if in_push.iter().any(|b| *b) && id.starts_with("bkt.clear") {
+            hit = true;
+        }
+    }
+    if hit {
+        out.nontrivial();
+        out.count("d.clear-step.while.record.in.flight");
+    }
+    if tr.iter().any(|(_, id)| *id == "bkt.push.cas_new") {
+        out.count("d.block.hand-over");
+    }
+    oracle_d(out, recs, &o);
+}
+
+fn gen_d(r: &mut Rng) -> (Vec<Vec<u64>>, usize, Vec<usize>, bool, usize) {
+    let mut recs: Vec<Vec<u64>> = vec![];
+    let mut sch: Vec<usize> = vec![];
+    let mut next = 1u64;
+    // sometimes the bucket's first block is nearly full before the race starts (block hand-over inside the race)
+    if r.chance(1, 6) {
+        let k = *r.pick(&[62usize, 63, 64]);
+        recs.push((0..k).map(|_| { let v = next; next += 1; v }).collect());
+        sch.extend(std::iter::repeat(0).take(3 * k + 2));
+    }
+    let first = recs.len();
+    let n_rec = r.range(1, 2);
+    for _ in 0..n_rec {
+        let k = r.range(1, 3);
+        recs.push((0..k).map(|_| { let v = next; next += 1; v }).collect());
+    }
+    let nflush = r.range(1, 3);
+    let n = recs.len() + 1;
+    let mut cur = first + r.below(n - first);
+    for _ in 0..90 {
+        if r.chance(2, 5) {
+            cur = first + r.below(n - first);
+        }
+        sch.push(cur);
+    }
+    (recs, nflush, sch, r.chance(1, 2), if r.chance(1, 4) { 64 } else { 8192 })
 }
 
 // ------------------------------------------------------------------------------------------------ driver
@@ -645,6 +976,72 @@ pub fn run(cfg: &Cfg, out: &mut Out) {
         let mut r = root.fork(1_000_000 + i as u64);
         out.case(&format!("B seed={} i={}", cfg.seed, i));
         stream_b(&mut r, out);
+    }
+    // stream D corpus: a complete record() placed at every position inside a flush of the same histogram (after j
+    // steps of the flusher), once with an almost empty and once with a full first block
+    for pre in [1usize, 64] {
+        for j in 0..10usize {
+            out.case(&format!("corpus D sweep j={} pre={}", j, pre));
+            let recs: Vec<Vec<u64>> = vec![(1..=pre as u64 + 1).collect()];
+            let mut sch: Vec<usize> = vec![0; 3 * pre + 2];
+            sch.extend(std::iter::repeat(1).take(1 + j));
+            sch.extend(std::iter::repeat(0).take(6));
+            sch.extend(std::iter::repeat(1).take(60));
+            one_d(out, &recs, 2, &sch, j % 2 == 0, 8192);
+        }
+    }
+    // K-C05-K1 through the exporter: recorder loads the tail, the flush detaches and reads, then the recorder claims
+    out.case("corpus D K1");
+    one_d(out, &[vec![1], vec![2]], 1, &[0, 0, 0, 0, 0, 1, 1, 2, 2, 2, 2, 2, 2, 2, 2, 2, 1, 1, 1], false, 8192);
+    for i in 0..cfg.cases {
+        let mut r = root.fork(3_000_000 + i as u64);
+        out.case(&format!("D seed={} i={}", cfg.seed, i));
+        let (recs, nflush, sch, as_dist, limit) = gen_d(&mut r);
+        one_d(out, &recs, nflush, &sch, as_dist, limit);
+    }
+    if cfg.thorough {
+        // ALL schedules of small recorder/flusher configurations
+        let configs: Vec<(Vec<Vec<u64>>, usize)> = vec![(vec![vec![1]], 2), (vec![vec![1, 2]], 1), (vec![vec![1], vec![2]], 1)];
+        for (recs, nflush) in configs {
+            let mut prefix: Vec<usize> = vec![];
+            let mut runs = 0usize;
+            let mut exhausted = false;
+            let tag = format!("{:?}x{}", recs, nflush).replace(' ', "");
+            out.case(&format!("exhaustive D {}", tag));
+            loop {
+                let o = execute_d(&recs, nflush, &prefix, false, 8192);
+                runs += 1;
+                let taken: Vec<usize> = o.run.trace.iter().map(|(t, _)| *t).collect();
+                let recs_tok = list(recs.iter().map(|r| r.iter().map(|v| v.to_string()).collect::<Vec<_>>().join("+")));
+                out.op(&format!("agg hist 64 {} {} {}", recs_tok, nflush, sched::sched_tok(&taken)), &answer_d(&o));
+                oracle_d(out, &recs, &o);
+                if runs >= 6000 {
+                    break;
+                }
+                let mut i = taken.len();
+                let mut next = None;
+                while i > 0 {
+                    i -= 1;
+                    if let Some(alt) = o.run.choices[i].iter().copied().filter(|c| *c > taken[i]).min() {
+                        next = Some((i, alt));
+                        break;
+                    }
+                }
+                match next {
+                    None => {
+                        exhausted = true;
+                        break;
+                    }
+                    Some((i, alt)) => {
+                        prefix = taken[..i].to_vec();
+                        prefix.push(alt);
+                    }
+                }
+            }
+            out.count_n(&format!("exhaustive.D.runs.{}", tag), runs as u64);
+            out.count(&format!("exhaustive.D.complete.{}={}", tag, exhausted));
+            out.nontrivial();
+        }
     }
     let nc = if cfg.thorough { 12 } else { 3 };
     for i in 0..nc {
